@@ -397,6 +397,11 @@ const M_BITS: usize = 254;
 
 fn compute_shl_uint(a: U256, b: U256) -> U256 {
     if b.ge(&U256::from(M_BITS)) {
+        // a count in the upper half of the field is negative: x << k = x >> (p - k)
+        let nb = M - b;
+        if nb.lt(&U256::from(M_BITS)) {
+            return compute_shr_uint(a, nb);
+        }
         return U256::ZERO;
     }
     let ls_limb = b.as_limbs()[0];
@@ -420,6 +425,11 @@ fn reduce_once(a: U256) -> U256 {
 
 fn compute_shr_uint(a: U256, b: U256) -> U256 {
     if b.ge(&U256::from(M_BITS)) {
+        // a count in the upper half of the field is negative: x >> k = x << (p - k)
+        let nb = M - b;
+        if nb.lt(&U256::from(M_BITS)) {
+            return compute_shl_uint(a, nb);
+        }
         return U256::ZERO;
     }
     let ls_limb = b.as_limbs()[0];
@@ -698,6 +708,11 @@ fn shl(a: Fr, b: Fr) -> Fr {
     }
 
     if b.cmp(&Fr::from(Fr::MODULUS_BIT_SIZE)).is_ge() {
+        // a count in the upper half of the field is negative: x << k = x >> (p - k)
+        let nb = -b;
+        if nb.cmp(&Fr::from(Fr::MODULUS_BIT_SIZE)).is_lt() {
+            return shr(a, nb);
+        }
         return Fr::zero();
     }
 
@@ -717,8 +732,14 @@ fn shr(a: Fr, b: Fr) -> Fr {
     }
 
     match b.cmp(&Fr::from(254u64)) {
-        Ordering::Equal => return Fr::zero(),
-        Ordering::Greater => return Fr::zero(),
+        Ordering::Equal | Ordering::Greater => {
+            // a count in the upper half of the field is negative: x >> k = x << (p - k)
+            let nb = -b;
+            if nb.cmp(&Fr::from(254u64)).is_lt() {
+                return shl(a, nb);
+            }
+            return Fr::zero();
+        }
         _ => (),
     };
 
